@@ -822,7 +822,7 @@ func (e *l1env) genL1(rng *rand.Rand, c *lib.Ctx) l1plan {
 		{"testpic_2s", "V300", "1.5", 0, "", "number", 0},
 		{"testpic_2s", "V300", "1.75", 0, "", "number", 0},
 		{"testpic_2s", "V300", "1", 137, "", "number", 30},
-		{"testpic_2s", "V300", "1.96", 1, "", "tlt", 0}, // decimal ato: 1 ms after the exact instant (float64 edge is C04's subject)
+		{"testpic_2s", "V300", "1.96", 0, "", "tlt", 0},
 		{"testpic_2s", "V300", "0.5", 0, "cbcs", "number", 0},
 		{"testpic_2s", "V300", "1.9", 901, "", "number", 0},
 		{"testpic_2s", "A48", "1.5", 0, "", "number", 0},
@@ -830,14 +830,17 @@ func (e *l1env) genL1(rng *rand.Rand, c *lib.Ctx) l1plan {
 		{"testpic_2s", "A48", "1", 0, "cenc", "number", 7},
 		{"testpic_2s", "A48", "0.25", 0, "", "number", 0},
 		{"testpic_2s", "V300", "1.25", 1250, "", "number", 0}, // at segment end: only the last chunk's pacing is in the future
-		{"testpic_2s", "A48", "1.9", 1, "", "number", 0},
+		{"testpic_2s", "A48", "1.9", 0, "", "number", 0},
+		{"testpic_2s", "V300", "1.9", 0, "", "number", 1000000},
+		{"testpic_2s", "V300", "0.04", 0, "", "number", 0},
+		{"testpic_2s", "A48", "1.96", 0, "", "number", 0},
 	}
 	if c.Thorough() {
 		for _, x := range []struct {
 			asset, rep, ato string
 		}{{"testpic_8s", "V300", "7"}, {"testpic_8s", "A48", "6"}, {"testpic_6s", "V300", "4.5"}, {"testpic_6s", "A48", "5.9"},
 			{"testpic_8s", "V300", "7.96"}, {"testpic_8s", "A48", "4"}} {
-			for _, off := range []int64{1, 333} {
+			for _, off := range []int64{0, 333} {
 				rtCfgs = append(rtCfgs, struct {
 					asset, rep, ato string
 					off             int64
@@ -848,7 +851,7 @@ func (e *l1env) genL1(rng *rand.Rand, c *lib.Ctx) l1plan {
 		}
 		for i := 0; i < 24; i++ {
 			base := rtCfgs[rng.Intn(12)]
-			base.off = 1 + rng.Int63n(1500)
+			base.off = rng.Int63n(1500)
 			base.ato = []string{"1.96", "1.9", "1.75", "1.5", "1.25", "1", "0.5", "0.25"}[rng.Intn(8)]
 			rtCfgs = append(rtCfgs, base)
 		}
